@@ -10,7 +10,7 @@ from vlib.simharness import Harness, Recorder, dec_ref, enc_obs
 ID = "C06"
 RULE = ("Hypothesis (stochastic program, seeds, prior history) triples: program = C02-style handlers plus random "
         "delays drawn from seeded MersenneTwister streams, stream draws, observations to SimCounter/SimTally/"
-        "SimWeightedTally/SimPersistent that are created in construct_model (as documented), and attempts to "
+        "SimWeightedTally/SimPersistent that are created in construct_model (as documented) and listen to one or two event types of producers that live for one replication or for the whole model, and attempts to "
         "initialize from a running handler; prior history in {none, initialised only, k steps, stop() after event k, "
         "bounded run, ended, paused by a handler fault, cleanup} with other seeds / other replication settings. "
         "Oracle (differential): trace, final clock, notification stream, stream draws and every statistics getter "
@@ -40,10 +40,11 @@ def strategy(tier):
     seeds = st.lists(st.one_of(st.integers(0, 50), st.integers()), min_size=1, max_size=3)
     return st.fixed_dictionaries({
         "prog": prog, "seeds": seeds, "n_initial": st.integers(0, 2), "reuse_streams": st.booleans(),
-        "long_lived_producers": st.sampled_from([False, False, False, False, True]),
+        "long_lived_producers": st.sampled_from([False, False, False, True, True]),
+        "two_types": st.booleans(),
         "drive2": st.sampled_from(["start", "start", "steps", "bounded"]), "k2": st.integers(1, 6),
         "reinit_listener": st.sampled_from([None, None, "START_REPLICATION", "STARTING", "START", "TIME_CHANGED",
-                                            "WARMUP"]),
+                                            "WARMUP", "STOP", "STOP"]),
         "prior": st.fixed_dictionaries({
             "kind": st.sampled_from(PRIORS), "k": st.integers(1, 12), "seeds": seeds, "same_seeds": st.booleans(),
             "other_rep": st.booleans(), "frac": st.integers(1, 9)}),
@@ -60,7 +61,8 @@ def _add_initial(h, n):
 def _fresh_run(prog, seeds, n_initial=0, reuse=False, llp=False, case=None):
     case = case or {}
     h = Harness(prog)
-    stoch.install(h.model, seeds, reuse_streams=reuse, long_lived_producers=llp)
+    stoch.install(h.model, seeds, reuse_streams=reuse, long_lived_producers=llp,
+                  two_types=bool(case.get("two_types")))
     _add_initial(h, n_initial)
     try:
         h.initialize()
@@ -103,12 +105,17 @@ def _listener_reinit(h, case):
     def hook(entry):
         if prev is not None:
             prev(entry)
-        if len(model.reinit_log) < 3:
+        # only 'initialising while the run thread is active' is specified: STARTING, STARTED, or STOPPING (the
+        # state in which STOP_EVENT is fired, before the worker publishes STOPPED)
+        if len(model.reinit_log) < 3 and sim.run_state.name in ("STARTING", "STARTED", "STOPPING"):
+            before = sim.eventlist().size()
             try:
                 sim.initialize(model, sim.replication)
                 model.reinit_log.append("accepted@" + name)
             except Exception as e:
                 model.reinit_log.append(type(e).__name__)
+            if sim.eventlist().size() != before:      # a refused request changes nothing
+                model.reinit_log.append("refused-but-pending-events-%d->%d" % (before, sim.eventlist().size()))
     h.rec.hooks[name] = hook
 
 
@@ -153,7 +160,10 @@ def run_case(case):
     prior_seeds = case["seeds"] if pr.get("same_seeds") else pr["seeds"]
     if pr.get("same_seeds"):
         out.label("prior-same-seeds")
-    stoch.install(h.model, prior_seeds, reuse_streams=reuse, long_lived_producers=llp)
+    stoch.install(h.model, prior_seeds, reuse_streams=reuse, long_lived_producers=llp,
+                  two_types=bool(case.get("two_types")))
+    if case.get("two_types"):
+        out.label("two-event-types-per-producer")
     _add_initial(h, n_init)
     left_pending = left_stats = False
     try:
